@@ -77,6 +77,13 @@ func newFaultConn(c net.Conn, kind, at int) *faultConn {
 
 var errInjected = errors.New("injected fault")
 
+// how long after the end of its context a call may take before the harness calls it stuck
+const c04StuckBound = 25 * time.Second
+
+// stuck attempts so far; after two, the remaining fault positions of the run are skipped
+// (each costs the bound) — the failing cases have been written
+var c04Stuck int
+
 func (f *faultConn) Read(b []byte) (int, error) {
 	i := int(f.reads.Add(1)) - 1
 	if i == f.at || (f.fired.Load() && f.kind != fWriteErr) {
@@ -250,6 +257,9 @@ type config struct {
 	clientMuxerFails bool
 	// AcceptQueueLength for this world's listener (0 = default)
 	queueLen int
+	// the security transports get no muxer list: the muxer is negotiated by multistream after
+	// the handshake (upgrader.setupMuxer's second branch, which watches the context)
+	noEarlyMuxer bool
 }
 
 type failMuxer struct{}
@@ -273,10 +283,14 @@ func mkEnd(t *testing.T, cfg config, psk ipnet.PSK, client bool) *end {
 		muxers = []upgrader.StreamMuxer{{ID: "/yamux/1.0.0", Muxer: failMuxer{}}}
 	}
 	var st sec.SecureTransport
+	secMuxers := muxers
+	if cfg.noEarlyMuxer {
+		secMuxers = nil
+	}
 	if cfg.useTLS {
-		st, err = tls.New(tls.ID, priv, muxers)
+		st, err = tls.New(tls.ID, priv, secMuxers)
 	} else {
-		st, err = noise.New(noise.ID, priv, muxers)
+		st, err = noise.New(noise.ID, priv, secMuxers)
 	}
 	if err != nil {
 		t.Fatal(err)
@@ -386,8 +400,29 @@ func mkWorld(t *testing.T, cfg config) *world {
 	return w
 }
 
+// closeBounded: listener.Close waits for its per-connection goroutines; if one of them is
+// stuck it never returns.  The bound only detects that.
+func closeBounded(out *verifh.Out, ln transport.Listener) bool {
+	done := make(chan struct{})
+	go func() {
+		ln.Close()
+		close(done)
+	}()
+	select {
+	case <-done:
+		return true
+	case <-time.After(c04StuckBound):
+		if out != nil {
+			out.Cover("attempt.STUCK_listener_close_did_not_return")
+		}
+		return false
+	}
+}
+
 func (w *world) close() {
-	w.ln.Close()
+	if !closeBounded(nil, w.ln) {
+		return // abandoned: its goroutines were reported as left over by the attempt that got stuck
+	}
 	for c := range w.accepted {
 		if c != nil {
 			c.Close() // a conn Accept handed to the harness is the harness's to close
@@ -426,10 +461,38 @@ func (w *world) attempt(out *verifh.Out, faulty int, kind, at int, special int) 
 		ipnet.ForcePrivateNetwork = true
 	}
 	ctx, cancel := context.WithTimeout(context.Background(), 400*time.Millisecond)
-	conn, err := cli.tpt.Dial(ctx, w.laddr, target)
+	// watchdog: the dial's context ends after 400 ms; a call that has still not returned
+	// c04StuckBound later, with both ends idle, is stuck (a silent peer keeps the upgrade
+	// blocked although its context ended).  The attempt is then written as a case like any
+	// other (no error reported yet, raw conn not closed, usage not back, goroutines left)
+	// and the harness moves on.
+	type dialRes struct {
+		conn transport.CapableConn
+		err  error
+	}
+	resCh := make(chan dialRes, 1)
+	go func() {
+		c, e := cli.tpt.Dial(ctx, w.laddr, target)
+		resCh <- dialRes{c, e}
+	}()
+	var conn transport.CapableConn
+	var err error
+	stuck := false
+	select {
+	case r := <-resCh:
+		conn, err = r.conn, r.err
+	case <-time.After(c04StuckBound):
+		stuck = true
+		err = errors.New("the dial did not return although its context ended long ago")
+		c04Stuck++
+		out.Cover("attempt.STUCK_call_did_not_return_after_its_context_ended")
+		out.Comment(fmt.Sprintf("stuck attempt: cfg=%d special=%d faulty=%d kind=%d at=%d: Dial (context 400ms) did not return within %v", w.cfg.id, special, faulty, kind, at, c04StuckBound))
+	}
 	cancel()
 	var sconn transport.CapableConn
-	if err == nil {
+	if stuck {
+		// nothing to wait for
+	} else if err == nil {
 		select {
 		case sconn = <-w.accepted:
 		case <-time.After(700 * time.Millisecond):
@@ -530,6 +593,17 @@ func (w *world) attempt(out *verifh.Out, faulty int, kind, at int, special int) 
 	}
 	if sf != nil && !sf.closed.Load() {
 		sf.Conn.Close()
+	}
+	if stuck {
+		// closing the raw sockets under the stuck calls lets them go; a conn that still comes out is closed
+		select {
+		case r := <-resCh:
+			if r.conn != nil {
+				r.conn.Close()
+			}
+		case <-time.After(10 * time.Second):
+		}
+		settle(5*time.Second, func() bool { return runtime.NumGoroutine() <= baseG })
 	}
 	return r, wr
 }
@@ -649,10 +723,14 @@ func (w *world) closeWithParked(out *verifh.Out) {
 		time.Sleep(20 * time.Millisecond)
 	}
 	time.Sleep(120 * time.Millisecond) // queue full, the last raw conn parked (accept timeout 400ms not reached)
-	w.ln.Close()
+	lnClosed := closeBounded(out, w.ln)
 	w.paused.Store(false)
 	wg.Wait()
-	for c := range w.accepted {
+	for lnClosed {
+		c, ok := <-w.accepted
+		if !ok {
+			break
+		}
 		if c != nil {
 			c.Close() // a conn Accept handed to the harness is the harness's to close
 		}
@@ -688,6 +766,7 @@ func TestVerifC04(t *testing.T) {
 		{id: 2, useTLS: true, psk: false},
 		{id: 3, useTLS: false, psk: true},
 		{id: 4, useTLS: true, psk: true},
+		{id: 10, noEarlyMuxer: true},
 	}
 	for _, cfg := range cfgs {
 		w := mkWorld(t, cfg)
@@ -697,7 +776,7 @@ func TestVerifC04(t *testing.T) {
 			nr[faulty], nw[faulty] = w.attempt(out, faulty, fNone, 0, 0)
 			out.Comment(fmt.Sprintf("dry run cfg=%d end=%d reads=%d writes=%d", cfg.id, faulty, nr[faulty], nw[faulty]))
 		}
-		full := thorough || cfg.id == int64(1+r.Intn(len(cfgs))) || cfg.id == 1
+		full := thorough || cfg.id == int64(1+r.Intn(4)) || cfg.id == 1
 		for faulty := 0; faulty < 2; faulty++ {
 			for _, kind := range []int{fReadErr, fWriteErr, fEOF, fAbruptClose, fStall} {
 				n := nr[faulty]
@@ -708,7 +787,11 @@ func TestVerifC04(t *testing.T) {
 					n = 24 // ops after the handshake belong to the established conn
 				}
 				for k := 0; k < n; k++ {
-					if kind == fStall && !thorough && !(k == 0 || k == 1 || k == n/2 || k == n-1) {
+					if c04Stuck >= 2 {
+						out.Cover("attempt.skipped_after_two_stuck_attempts")
+						continue
+					}
+					if kind == fStall && !thorough && !(k <= 3 || k == n/2 || k >= n-2) {
 						continue
 					}
 					if !full && !(k == 0 || k == n-1 || r.Chance(1, 3)) {
